@@ -158,6 +158,7 @@ Spec == Init /\ [][Next]_gvars
 F_Devs == CASE Family \in {"coll", "mixed"} -> {"Dev_InArrayStringUntyped"}
             [] Family = "order" -> {"Dev_SliceToBeforeFrom", "Dev_InRangeRewrite"}
             [] Family = "alloc" -> {"Dev_RangeSizeSigned"}
+            [] Family = "access" -> {"Dev_RankIntBelowInt8"}   \* any-typed operands: int8 result of I8Id with an int
             [] OTHER -> {}
 
 (* memory budgets each run is repeated under (C06); 0 stands for the default *)
@@ -165,10 +166,10 @@ F_Budgets == CASE Family = "alloc" -> 1..7 [] OTHER -> {0}
 
 RunOf(t, asg, b) ==
   LET rho == EnvOf(asg)
-      L == IF b = 0 THEN DefaultBudget ELSE b
-      exp == Outcome(t, rho, L, {})
-      dvs == {d \in F_Devs : Outcome(t, rho, L, {d}) # exp}
-  IN [env |-> asg, budget |-> L, exp |-> exp, dev |-> [d \in dvs |-> Outcome(t, rho, L, {d})]]
+      lim == IF b = 0 THEN DefaultBudget ELSE b
+      exp == Outcome(t, rho, lim, {})
+      dvs == {d \in F_Devs : Outcome(t, rho, lim, {d}) # exp}
+  IN [env |-> asg, budget |-> lim, exp |-> exp, dev |-> [d \in dvs |-> Outcome(t, rho, lim, {d})]]
 
 Runs(t) ==
   LET rs == {RunOf(t, asg, b) : asg \in Assignments(Mentions(t)), b \in F_Budgets}
